@@ -38,6 +38,9 @@ class PageByStrategy(PaginationStrategy):
             removed_column_indices=context.removed_column_indices,
             additional_rows_per_page=context.additional_rows_per_page,
             new_page=context.rtf_body.new_page,
+            pageby_as_rows=not (
+                context.rtf_body.new_page and context.rtf_body.pageby_row == "column"
+            ),
         )
 
         pages = []
@@ -169,6 +172,9 @@ class SublineStrategy(PageByStrategy):
             removed_column_indices=context.removed_column_indices,
             additional_rows_per_page=context.additional_rows_per_page,
             new_page=True,
+            pageby_as_rows=not (
+                context.rtf_body.new_page and context.rtf_body.pageby_row == "column"
+            ),
         )
 
         pages = []
